@@ -17,6 +17,7 @@ func init() {
 	vfHarnesses["C07_collection"] = vfhC07Collection
 	vfHarnesses["C07_collection_full"] = vfhC07CollectionFull
 	vfHarnesses["C07_collection_line"] = vfhC07CollectionLine
+	vfHarnesses["C07_collection_empty_order"] = vfhC07CollectionEmptyOrder
 	vfHarnesses["C07_multipolygon_empty_member"] = vfhC07MultiPolygonEmptyMember
 }
 
@@ -409,5 +410,47 @@ func vfhC07CollectionLine() {
 	vfAssert(vfAnd(vfEqF(mn.Y, loY), vfEqF(mx.Y, hiY)), "bbox Y range is the range of the decoded Y ordinates")
 	g2, err := UnmarshalTWKB(twkb, NoValidate{})
 	vfAssert(err == nil && g2.IsGeometryCollection() && g2.MustAsGeometryCollection().NumGeometries() == 2, "full decode agrees on the structure")
+	vfReach("end")
+}
+
+// C07: a collection of an empty member (of symbolic kind) and a full Point in
+// either order, with every subset of {size, bbox} headers: decodes to the same
+// structure; the size header tells the truth.
+func vfhC07CollectionEmptyOrder() {
+	c := vfSmallCoords("a", DimXY, 0, 0, 0)
+	var e Geometry
+	switch vfInt("empty-kind", 0, 3) {
+	case 0:
+		e = NewEmptyPoint(DimXY).AsGeometry()
+	case 1:
+		e = LineString{}.AsGeometry()
+	case 2:
+		e = Polygon{}.AsGeometry()
+	default:
+		e = MultiPoint{}.AsGeometry()
+	}
+	members := []Geometry{e, NewPoint(c).AsGeometry()}
+	if vfBool("empty-last") {
+		members[0], members[1] = members[1], members[0]
+	}
+	gc := NewGeometryCollection(members).AsGeometry()
+	sizeHdr, bbox := vfBool("size"), vfBool("bbox")
+	twkb, err := MarshalTWKB(gc, 0, vfOpts(sizeHdr, bbox, false, 0, 0, nil)...)
+	vfAssert(err == nil, "marshal succeeds")
+	g2, err := UnmarshalTWKB(twkb, NoValidate{})
+	vfAssert(err == nil, "unmarshal succeeds")
+	vfAssert(g2.IsGeometryCollection(), "type")
+	out := g2.MustAsGeometryCollection()
+	vfAssert(out.NumGeometries() == 2, "member count")
+	for i := 0; i < 2; i++ {
+		vfAssert(out.GeometryN(i).Type() == members[i].Type(), "member types in order")
+		vfAssert(out.GeometryN(i).IsEmpty() == members[i].IsEmpty(), "member emptiness in order")
+	}
+	sz, hasSz, err := UnmarshalTWKBSize(twkb)
+	vfAssert(err == nil && hasSz == sizeHdr, "size header presence")
+	if sizeHdr {
+		vfAssert(sz == len(twkb), "size header tells the truth")
+		vfReach("size")
+	}
 	vfReach("end")
 }
